@@ -15,18 +15,19 @@ import (
 )
 
 type Tape struct {
-	Engine   string   `json:"engine"`
-	RunSeed  uint64   `json:"run_seed"`
-	Etype    int      `json:"etype"`
-	SPNMode  string   `json:"spn_mode"` // explicit | derived
-	Host     string   `json:"host"`     // URL host (see hosts)
-	Method   string   `json:"method"`   // GET | HEAD | POST | PUT
-	BodySize int      `json:"body_size"`
-	ReadMode string   `json:"read_mode"` // all | some | none : how much of the body the server reads before it answers
-	ReadK    int      `json:"read_k,omitempty"`
-	Script   []string `json:"script"`        // responses in order
-	Tail     string   `json:"tail"`          // response to every further request
-	API      string   `json:"api,omitempty"` // do | get | post | head | header
+	Engine       string   `json:"engine"`
+	RunSeed      uint64   `json:"run_seed"`
+	Etype        int      `json:"etype"`
+	SPNMode      string   `json:"spn_mode"` // explicit | derived
+	Host         string   `json:"host"`     // URL host (see hosts)
+	Method       string   `json:"method"`   // GET | HEAD | POST | PUT
+	BodySize     int      `json:"body_size"`
+	ReadMode     string   `json:"read_mode"` // all | some | none : how much of the body the server reads before it answers
+	ReadK        int      `json:"read_k,omitempty"`
+	Script       []string `json:"script"`                  // responses in order
+	Tail         string   `json:"tail"`                    // response to every further request
+	API          string   `json:"api,omitempty"`           // do | get | post | head | header
+	SelfRedirect bool     `json:"self_redirect,omitempty"` // "302 same host" points at the URL just requested
 }
 
 // response alphabet of the property's quantifier
@@ -124,8 +125,9 @@ func Gen(caseID, tier string) (json.RawMessage, error) {
 	if r.Chance(1, 2) {
 		tp.Host = hosts[0]
 	}
-	tp.Method = r.Pick("GET", "GET", "POST", "POST", "HEAD", "PUT")
-	if tp.Method == "POST" || tp.Method == "PUT" {
+	tp.Method = r.Pick("GET", "GET", "POST", "POST", "HEAD", "PUT", "GET-with-body")
+	tp.SelfRedirect = r.Chance(1, 3)
+	if tp.Method == "POST" || tp.Method == "PUT" || tp.Method == "GET-with-body" {
 		tp.BodySize = r.PickInt(0, 1, 4096, 4096, 1<<20)
 		tp.ReadMode = r.Pick("all", "all", "some", "none")
 		if tp.ReadMode == "some" && tp.BodySize > 0 {
